@@ -580,3 +580,332 @@ def c_driver(model, out_text):
     L.append("    return 0;")
     L.append("}")
     return "\n".join(L) + "\n", plan
+
+
+# =================================================================================================
+# C++ mode: the same API models rendered in cbindgen's C++ (template) output shape
+# =================================================================================================
+
+INCLUDES_CPP = "#include <cstdarg>\n#include <cstdint>\n#include <cstdlib>\n#include <ostream>\n#include <new>\n\n"
+
+DOC_CSLICEREF = """/**
+ * Wrapper around const slices.
+ *
+ * This is meant as a safe type to pass across the FFI boundary with similar semantics as regular
+ * slice. However, not all functionality is present, use the slice conversion functions.
+ */
+"""
+
+CPP_TY = {"struct Pair": "Pair", "struct CSliceRef_u8": "CSliceRef<uint8_t>"}
+CPP_INST = {"Box": "CBox<void>", "Mut": "void *", "Ref": "const void *"}
+CPP_CTX = {"Arc": "CArc<void>", "None": "void"}
+
+
+def cpp_type(model, cty):
+    if cty.startswith("OpaqueCallback_"):
+        return "OpaqueCallback<" + ("Pair" if model.cb_payload == "Pair" else "uint32_t") + ">"
+    return CPP_TY.get(cty, cty)
+
+
+def render_method_cpp(model, meth):
+    cont_arg = {"const": "const CGlueC *cont", "mut": "CGlueC *cont", "own": "CGlueC cont"}[meth.recv]
+    args = "".join(f", {cpp_type(model, t)}{'' if t.endswith('*') else ' '}{n}" for (t, n, _) in meth.args)
+    ret = "CGlueC" if meth.ret[1] == "self" else cpp_type(model, meth.ret[0])
+    sep = "" if ret.endswith("*") else " "
+    return f"    {ret}{sep}(*{meth.name})({cont_arg}{args});\n"
+
+
+def cpp_alias(inst):
+    return f"{inst.name}{'Arc' if inst.ctx == 'Arc' else ''}{inst.cont}"
+
+
+def render_cpp(model):
+    """raw header text as cbindgen prints it with `-l C++` + ordered list of foreign declarations"""
+    items = []
+    pos = 0.0
+
+    def add(txt):
+        nonlocal pos
+        pos += 1
+        items.append((pos, txt))
+
+    all_traits = sorted(model.traits)
+    used_traits = []
+    for inst in model.insts:
+        for t in inst_traits(model, inst):
+            if t not in used_traits:
+                used_traits.append(t)
+    uses_cb = any(k == "callback" for t in used_traits for me in model.traits[t].methods for (_, _, k) in me.args)
+    uses_slice = any(k == "slice" for t in used_traits for me in model.traits[t].methods for (_, _, k) in list(me.args) + [(None, None, me.ret[1])])
+    has_obj = any(i.kind == "obj" for i in model.insts)
+    for t in sorted(used_traits):
+        add(DOC_RETTMP_ZST + f"template<typename CGlueCtx = void>\nstruct {t}RetTmp;\n")
+    if model.cpp_maybe_uninit:
+        add("template<typename T = void>\nstruct MaybeUninit;\n")
+    add(DOC_CARC + "template<typename T>\nstruct CArc {\n    const T *instance;\n    const T *(*clone_fn)(const T*);\n    void (*drop_fn)(const T*);\n};\n")
+    add(DOC_CBOX + "template<typename T>\nstruct CBox {\n    T *instance;\n    void (*drop_fn)(T*);\n};\n")
+    gnames = []
+    for inst in model.insts:
+        if inst.kind == "group" and inst.name not in gnames:
+            gnames.append(inst.name)
+    for g in gnames:
+        mand, opt = model.groups[g]
+        ts = sorted(mand) + sorted(opt)
+        add(f"template<typename CGlueInst, typename CGlueCtx>\nstruct {g}Container {{\n    CGlueInst instance;\n    CGlueCtx context;\n" + "".join(f"    {t}RetTmp<CGlueCtx> ret_tmp_{t.lower()};\n" for t in ts) + "};\n")
+    for (n, body) in model.user_structs:
+        add(f"struct {n} {{\n{body}}};\n")
+    if uses_slice:
+        add(DOC_CSLICEREF + "template<typename T>\nstruct CSliceRef {\n    const T *data;\n    uintptr_t len;\n};\n")
+    if uses_cb:
+        add("template<typename T, typename F>\nstruct Callback {\n    T *context;\n    bool (*func)(T*, F);\n};\n")
+        add("template<typename T>\nusing OpaqueCallback = Callback<void, T>;\n")
+    for t in used_traits:
+        add(doc_vtbl(t) + f"template<typename CGlueC>\nstruct {t}Vtbl {{\n" + "".join(render_method_cpp(model, me) for me in model.traits[t].methods) + "};\n")
+    for g in gnames:
+        mand, opt = model.groups[g]
+        ts = sorted(mand) + sorted(opt)
+        add(doc_group(g, ts) + f"template<typename CGlueInst, typename CGlueCtx>\nstruct {g} {{\n" + "".join(f"    const {t}Vtbl<{g}Container<CGlueInst, CGlueCtx>> *vtbl_{t.lower()};\n" for t in ts) + f"    {g}Container<CGlueInst, CGlueCtx> container;\n}};\n")
+    if has_obj:
+        add(DOC_CONTAINER + "template<typename T, typename C, typename R>\nstruct CGlueObjContainer {\n    T instance;\n    C context;\n    R ret_tmp;\n};\n")
+        add(DOC_OBJ + "template<typename T, typename V, typename C, typename R>\nstruct CGlueTraitObj {\n    const V *vtbl;\n    CGlueObjContainer<T, C, R> container;\n};\n")
+    seen_base = set()
+    ptr = {"Box": "CBox<CGlueT>", "Mut": "CGlueT *", "Ref": "const CGlueT *"}
+    for inst in model.insts:
+        if inst.ctx != "Arc":
+            continue   # (how cbindgen spells the no-context marker type in C++ is not modelled; such objects are instantiated directly)
+        n, c = inst.name, inst.cont
+        if inst.kind == "obj":
+            if n not in seen_base:
+                seen_base.add(n)
+                add(f"/**\n * Base CGlue trait object for trait {n}.\n */\ntemplate<typename CGlueInst, typename CGlueCtx>\nusing {n}Base = CGlueTraitObj<CGlueInst, {n}Vtbl<CGlueObjContainer<CGlueInst, CGlueCtx, {n}RetTmp<CGlueCtx>>>, CGlueCtx, {n}RetTmp<CGlueCtx>>;\n")
+            base = f"{n}Base<{ptr[c]}, CGlueCtx>"
+        else:
+            base = f"{n}<{ptr[c]}, CGlueCtx>"
+        if (n, c) in seen_base:
+            continue
+        seen_base.add((n, c))
+        add(f"/**\n * Ctx{c} CGlue trait object for trait {n} with context.\n */\ntemplate<typename CGlueT, typename CGlueCtx>\nusing {n}BaseCtx{c} = {base};\n")
+        add(f"/**\n * {c} CGlue trait object for trait {n} with a [`CArc`](cglue::arc::CArc) reference counted context.\n */\ntemplate<typename CGlueT, typename CGlueC>\nusing {n}BaseArc{c} = {n}BaseCtx{c}<CGlueT, CArc<CGlueC>>;\n")
+        add(f"/**\n * Opaque {c} CGlue trait object for trait {n} with a [`CArc`](cglue::arc::CArc) reference counted context.\n */\nusing {n}Arc{c} = {n}BaseArc{c}<void, void>;\n")
+    n = len(items)
+    all_items = list(items)
+    for (frac, txt) in sorted(model.foreign):
+        all_items.append((frac * n + 0.5, txt))
+    all_items.sort(key=lambda p: p[0])
+    body = "\n".join(t for (_, t) in all_items)
+    foreign_texts = [t for (_, t) in all_items if any(t == f[1] for f in model.foreign)]
+    funcs = []
+    for inst in [i for i in model.insts if i.ctx == "Arc"][:3]:
+        a = cpp_alias(inst)
+        if model.cpp_maybe_uninit:
+            funcs.append(f"int32_t make_{a.lower()}(MaybeUninit<{a}> *ok_out);\n")
+        else:
+            funcs.append(f"int32_t make_{a.lower()}({a} *ok_out);\n")
+    funcs.append("uint32_t user_function(uint32_t x);\n")
+    # (the tool rewrites `MaybeUninit<T>` to `T` everywhere, also in the user's functions: documented)
+    foreign_texts += [f for f in funcs if "MaybeUninit" not in f]
+    ext = "extern \"C\" {\n\n" + "\n".join(funcs) + "\n} // extern \"C\"\n"
+    return INCLUDES_CPP + body + "\n" + ext, foreign_texts
+
+
+FOREIGN_POOL_CPP = [
+    "struct UserThing {\n    int32_t x;\n    int32_t y;\n};\n",
+    "using UserHandle = uint32_t;\n",
+    "struct MyVtblHolder {\n    const void *p;\n};\n",
+    "struct ContextInfo {\n    uint8_t kind;\n};\n",
+    "struct SomeRetTmpLike {\n    uint64_t v;\n};\n",
+    "struct UserContainerStats {\n    uintptr_t n;\n};\n",
+    "enum class UserMode : uint8_t {\n    Fast,\n    Slow,\n};\n",
+    "/**\n * A user documented type.\n */\nstruct CGlueXUser {\n    double d;\n};\n",
+    "template<typename T>\nstruct UserWrap {\n    T *p;\n    uintptr_t n;\n};\n",
+    "constexpr static const uint32_t USER_LIMIT = 16;\n",
+]
+
+
+def gen_model_cpp(rng):
+    """the C model space, with the foreign declarations in their C++ spelling"""
+    m = gen_model(rng, foreign=False)
+    m.mode = "C++"
+    for txt in rng.sample(FOREIGN_POOL_CPP, rng.randint(0, 5)):
+        m.foreign.append((rng.random(), txt))
+    m.cpp_maybe_uninit = rng.random() < 0.85
+    m.config = {k: v for k, v in m.config.items() if k != "function_prefix"}   # (C only)
+    return m
+
+
+# ---- execution oracle (C++) ----------------------------------------------------------------------
+
+def cpp_cont_type(model, inst):
+    I, X = CPP_INST[inst.cont], CPP_CTX[inst.ctx]
+    if inst.kind == "obj":
+        return f"CGlueObjContainer<{I}, {X}, {inst.name}RetTmp<{X}>>"
+    return f"{inst.name}Container<{I}, {X}>"
+
+
+def cpp_obj_type(model, inst):
+    I, X = CPP_INST[inst.cont], CPP_CTX[inst.ctx]
+    if inst.kind == "obj":
+        return f"CGlueTraitObj<{I}, {inst.name}Vtbl<{cpp_cont_type(model, inst)}>, {X}, {inst.name}RetTmp<{X}>>"
+    return f"{inst.name}<{I}, {X}>"
+
+
+def cpp_arg_value(model, ctype, kind, k):
+    if kind == "scalar":
+        return ARGV[ctype](k)
+    if kind == "pair":
+        return f"Pair{{ {7 + k}u, 0x998877665544{k:02x}ull }}"
+    if kind == "slice":
+        return f"mk_slice(g_buf + {k}, {3 + k})"
+    if kind == "ptr":
+        return f"&g_words[{k}]"
+    if kind == "callback":
+        return f"mk_cb(&g_words[{k}])"
+    raise ValueError(kind)
+
+
+def cpp_driver(model, out_text):
+    """C++ translation unit: every object type instantiated with mock vtables, every member wrapper called"""
+    L = ['#include "out.hpp"', "#include <cstdio>", "#include <cstring>", "#include <utility>", ""]
+    L.append("static uint8_t g_buf[64]; static uint32_t g_words[16];")
+    L.append("enum { EV_SLOT = 1, EV_BOXDROP, EV_CTXCLONE, EV_CTXDROP };")
+    L.append("static int g_ev[64]; static int g_evid[64]; static int g_nev; static const void *g_cont; static int g_args_ok; static int g_inst_ok;")
+    L.append("static void ev(int k, int id) { if (g_nev < 64) { g_ev[g_nev] = k; g_evid[g_nev] = id; g_nev++; } }")
+    L.append("static int g_inst_marker; static int g_ctx_marker;")
+    L.append("static void mock_box_drop(void *p) { ev(EV_BOXDROP, p == (void *)&g_inst_marker); }")
+    L.append("static const void *mock_arc_clone(const void *p) { ev(EV_CTXCLONE, p == (const void *)&g_ctx_marker); return p; }")
+    L.append("static void mock_arc_drop(const void *p) { ev(EV_CTXDROP, p == (const void *)&g_ctx_marker); }")
+    uses_cb = any(k == "callback" for t in model.traits.values() for me in t.methods for (_, _, k) in me.args)
+    uses_slice = "struct CSliceRef" in out_text
+    cbp = "Pair" if model.cb_payload == "Pair" else "uint32_t"
+    if uses_cb and "struct Callback" in out_text:
+        L.append(f"static bool mock_cb(void *c, {cbp} p) {{ (void)c; (void)p; return true; }}")
+        L.append(f"static OpaqueCallback<{cbp}> mk_cb(void *c) {{ OpaqueCallback<{cbp}> r; r.context = c; r.func = mock_cb; return r; }}")
+    if uses_slice:
+        L.append("static CSliceRef<uint8_t> mk_slice(const uint8_t *p, uintptr_t n) { CSliceRef<uint8_t> r; r.data = p; r.len = n; return r; }")
+    L.append("static void poison_stack(void) { volatile unsigned char junk[4096]; memset((void *)junk, 0xAB, sizeof(junk)); }")
+
+    def a_check(ctype, kind, name, k):
+        if kind == "scalar":
+            return f"({name} == {ARGV[ctype](k)})"
+        if kind == "pair":
+            return f"({name}.a == {7 + k}u && {name}.b == 0x998877665544{k:02x}ull)"
+        if kind == "slice":
+            return f"({name}.data == g_buf + {k} && {name}.len == {3 + k})"
+        if kind == "ptr":
+            return f"({name} == &g_words[{k}])"
+        if kind == "callback":
+            return f"({name}.context == (void *)&g_words[{k}] && {name}.func == mock_cb)"
+
+    sid = 0
+    slots, plan = {}, []
+    for ii, inst in enumerate(model.insts):
+        cn = cpp_cont_type(model, inst)
+        L.append(f"typedef {cn} Cont{ii};")
+        L.append(f"typedef {cpp_obj_type(model, inst)} Obj{ii};")
+        for t in inst_traits(model, inst):
+            for me in model.traits[t].methods:
+                sid += 1
+                slots[(ii, t, me.name)] = sid
+                cont_arg = {"const": f"const Cont{ii} *cont", "mut": f"Cont{ii} *cont", "own": f"Cont{ii} cont"}[me.recv]
+                args = "".join(f", {cpp_type(model, ty)}{'' if ty.endswith('*') else ' '}{n}" for (ty, n, _) in me.args)
+                ret = f"Cont{ii}" if me.ret[1] == "self" else cpp_type(model, me.ret[0])
+                checks = " && ".join([a_check(ty, k, n, j) for j, (ty, n, k) in enumerate(me.args)] or ["1"])
+                body = [f"static {ret} mock_{ii}_{t}_{me.name}({cont_arg}{args}) {{", f"    ev(EV_SLOT, {sid});"]
+                if me.recv == "own":
+                    inst_ptr = {"Box": "cont.instance.instance", "Mut": "cont.instance", "Ref": "cont.instance"}[inst.cont]
+                    body.append(f"    g_inst_ok = ((const void *){inst_ptr} == (const void *)&g_inst_marker); g_cont = 0;")
+                    if inst.cont == "Box":
+                        body.append("    if (cont.instance.drop_fn) cont.instance.drop_fn(cont.instance.instance);")
+                    if inst.ctx == "Arc":
+                        body.append("    if (cont.context.drop_fn) cont.context.drop_fn(cont.context.instance);")
+                else:
+                    body.append("    g_cont = (const void *)cont; g_inst_ok = 1;")
+                body.append(f"    g_args_ok = ({checks});")
+                if me.ret[1] == "self":
+                    body.append(f"    Cont{ii} r = *cont; return r;")
+                elif me.ret[1] == "scalar":
+                    body.append(f"    return {ARGV[me.ret[0]](sid % 200)};")
+                elif me.ret[1] == "pair":
+                    body.append(f"    return Pair{{ {900 + sid}u, {sid}ull }};")
+                elif me.ret[1] == "slice":
+                    body.append(f"    return mk_slice(g_buf + 1, {sid + 1});")
+                body.append("}")
+                L += body
+            L.append(f"static const {t}Vtbl<Cont{ii}> vt_{ii}_{t} = {{ " + ", ".join(f"&mock_{ii}_{t}_{me.name}" for me in model.traits[t].methods) + " };")
+    L.append("")
+    L.append("#define RESET() do { g_nev = 0; g_cont = 0; g_args_ok = -1; g_inst_ok = -1; poison_stack(); } while (0)")
+    L.append("static void report(const char *tag, int inst, const char *trait, const char *meth, const char *wrapper, int want_sid, const void *want_cont, int ret_ok, int vt_ok) {")
+    L.append('    int slots = 0, sid = -1, bd = 0, cc = 0, cd = 0, order_ok = 1, seen_slot = 0, i;')
+    L.append("    for (i = 0; i < g_nev; i++) { if (g_ev[i] == EV_SLOT) { slots++; sid = g_evid[i]; seen_slot = 1; } if (g_ev[i] == EV_BOXDROP) bd++; if (g_ev[i] == EV_CTXCLONE) { cc++; if (seen_slot) order_ok = 0; } if (g_ev[i] == EV_CTXDROP) cd++; }")
+    L.append("    if (g_nev > 0 && cc > 0 && g_ev[g_nev - 1] != EV_CTXDROP) order_ok = 0;")
+    L.append('    printf("%s inst=%d trait=%s meth=%s wrapper=%s slots=%d sid=%d want=%d cont_ok=%d inst_ok=%d args_ok=%d ret_ok=%d vt_ok=%d boxdrops=%d ctxclones=%d ctxdrops=%d order_ok=%d\\n", tag, inst, trait, meth, wrapper, slots, sid, want_sid, want_cont ? (g_cont == want_cont) : 1, g_inst_ok, g_args_ok, ret_ok, vt_ok, bd, cc, cd, order_ok);')
+    L.append("    fflush(stdout);")
+    L.append("}")
+    for ii, inst in enumerate(model.insts):
+        traits = inst_traits(model, inst)
+        b = [f"static void build_{ii}(Obj{ii} &o) {{"]
+        if inst.kind == "obj":
+            b.append(f"    o.vtbl = &vt_{ii}_{traits[0]};")
+        else:
+            for t in traits:
+                b.append(f"    o.vtbl_{t.lower()} = &vt_{ii}_{t};")
+        if inst.cont == "Box":
+            b.append("    o.container.instance.instance = &g_inst_marker; o.container.instance.drop_fn = mock_box_drop;")
+        else:
+            b.append("    o.container.instance = &g_inst_marker;")
+        if inst.ctx == "Arc":
+            b.append("    o.container.context.instance = &g_ctx_marker; o.container.context.clone_fn = mock_arc_clone; o.container.context.drop_fn = mock_arc_drop;")
+        b.append("}")
+        L += b
+    L.append("int main(void) {")
+    L.append("    int i; for (i = 0; i < 64; i++) g_buf[i] = (uint8_t)i;")
+    for ii, inst in enumerate(model.insts):
+        traits = inst_traits(model, inst)
+        for t in traits:
+            for me in model.traits[t].methods:
+                want = slots[(ii, t, me.name)]
+                shared = inst.kind == "group" and len([x for x in traits if any(y.name == me.name for y in model.traits[x].methods)]) > 1
+                # documented naming: the method's name; prefixed with the trait's name when two traits of a group share it
+                wname = f"{t.lower()}_{me.name}" if shared else me.name
+                plan.append({"inst": ii, "trait": t, "meth": me.name, "recv": me.recv, "ret": me.ret[1], "cands": [wname], "sid": want, "shared_name": shared})
+                args = ", ".join(cpp_arg_value(model, ty, k, j) for j, (ty, n, k) in enumerate(me.args))
+                L.append("    {")
+                L.append(f"        Obj{ii} o; build_{ii}(o);")
+                L.append("        RESET();")
+                recv = "std::move(o)" if me.recv == "own" else ("const_cast<const Obj%d &>(o)" % ii if me.recv == "const" else "o")
+                call = f"{recv}.{wname}({args})"
+                want_cont = "0" if me.recv == "own" else "&o.container"
+                if me.ret[1] == "void":
+                    L.append(f"        {call};")
+                    L.append(f'        report("CALL", {ii}, "{t}", "{me.name}", "{wname}", {want}, {want_cont}, 1, 1);')
+                elif me.ret[1] == "self":
+                    L.append(f"        Obj{ii} r = {call};")
+                    if inst.kind == "obj":
+                        vt = "(r.vtbl == o.vtbl)"
+                    else:
+                        vt = "(" + " && ".join(f"r.vtbl_{x.lower()} == o.vtbl_{x.lower()}" for x in traits) + ")"
+                    L.append("        int ret_ok = (memcmp(&r.container, &o.container, sizeof(o.container)) == 0);")
+                    L.append(f'        report("CALL", {ii}, "{t}", "{me.name}", "{wname}", {want}, {want_cont}, ret_ok, {vt});')
+                    L.append("        r.container.forget();")
+                else:
+                    rt = cpp_type(model, me.ret[0])
+                    L.append(f"        {rt} r = {call};")
+                    if me.ret[1] == "scalar":
+                        rc = f"(r == {ARGV[me.ret[0]](want % 200)})"
+                    elif me.ret[1] == "pair":
+                        rc = f"(r.a == {900 + want}u && r.b == {want}ull)"
+                    else:
+                        rc = f"(r.data == g_buf + 1 && r.len == {want + 1})"
+                    L.append(f'        report("CALL", {ii}, "{t}", "{me.name}", "{wname}", {want}, {want_cont}, {rc}, 1);')
+                L.append("        o.container.forget();")
+                L.append("    }")
+        # the generated drop helper of a C++ object is its destructor
+        plan.append({"inst": ii, "trait": inst.name, "meth": "drop", "recv": "own", "ret": "void", "cands": ["~"], "sid": 0, "drop": True})
+        L.append("    {")
+        L.append("        RESET();")
+        L.append(f"        {{ Obj{ii} o; build_{ii}(o); }}")
+        L.append(f'        report("DROP", {ii}, "{inst.name}", "drop", "destructor", 0, 0, 1, 1);')
+        L.append("    }")
+    L.append("    return 0;")
+    L.append("}")
+    return "\n".join(L) + "\n", plan
